@@ -58,6 +58,9 @@ def _accept_substitutor(c):
     c.raises("SubstitutionError")
     c.raises_when("SubstitutionError", subraises(Mx, v, kw))
     c.ensures("result", lambda r, post: r == subres(Mx, v, kw))
+    # induction hypothesis established by every Substitutor.visit_* contract (clause `same-class`): the result is a
+    # schema object of the member's class
+    c.ensures("same-class", lambda r, post: z3.And(S.is_schema(c.ct, r), M.rcls(r) == M.rcls(Mx)))
 
 
 # -- the user's hooks (assumed): forward to the inner schema with the very same arguments -------------------
